@@ -291,6 +291,17 @@ func relOf(cond ssa.Value, pos bool) (Rel, bool) {
 	cond, pos = normCond(cond, pos)
 	b, ok := cond.(*ssa.BinOp)
 	if !ok {
+		// a predicate method that is nothing but a comparison (func (s *StoreInfo) IsTombstone() bool
+		// { return s.GetState() == Tombstone }) stands for that comparison
+		if c, isCall := cond.(*ssa.Call); isCall {
+			if f := c.Call.StaticCallee(); f != nil && len(f.Blocks) == 1 {
+				if r, isRet := f.Blocks[0].Instrs[len(f.Blocks[0].Instrs)-1].(*ssa.Return); isRet && len(r.Results) == 1 {
+					if inner, isCmp := r.Results[0].(*ssa.BinOp); isCmp {
+						return relOf(inner, pos)
+					}
+				}
+			}
+		}
 		return Rel{}, false
 	}
 	op := b.Op
